@@ -23,7 +23,7 @@ Qed.
 Theorem next_run_never_set_into_past c x r m m' :
   change c x r m m' -> m_next m' = m_next m \/ op_now x <= m_next m'.
 Proof.
-  intros H. destruct H as [E | _ _ E | route target b ttl lid m0 _ _ _ _ E | k lid _ _ _ _ Hu _ Hne E | k _ _ _ E].
+  intros H. destruct H as [E | _ _ _ E | route target b ttl lid m0 _ _ _ _ _ E | k lid _ _ _ _ Hu _ Hne E | k _ _ _ E].
   - subst. left. reflexivity.
   - subst. right. simpl. lia.
   - subst. right. simpl. pose proof (eff_ttl_pos ttl). lia.
@@ -113,7 +113,7 @@ Lemma change_keeps_lease_end c x r m m' :
   change c x r m m' -> is_leased m' = true ->
   (is_leased m = true /\ m_until m <= m_until m') \/ (exists now route target batch ttl, x = Dequeue now route target batch ttl).
 Proof.
-  intros H L. destruct H as [E | _ _ E | route target b ttl lid m0 Ex _ _ _ E | k lid _ _ _ Il _ _ Hne E | k _ _ _ E].
+  intros H L. destruct H as [E | _ _ _ E | route target b ttl lid m0 Ex _ _ _ _ E | k lid _ _ _ Il _ _ Hne E | k _ _ _ E].
   - subst. left. split; [exact L | lia].
   - subst. discriminate.
   - right. exists (op_now x), route, target, b, ttl. exact Ex.
